@@ -1,4 +1,5 @@
 import PlzVerif.Lemmas.Cycle
+import PlzVerif.Lemmas.CycleSimple
 import PlzVerif.Model.CycleFacts
 /-!
 C06  Cycle detection is sound and complete.
@@ -41,6 +42,10 @@ theorem C06_sound (g : Graph) (nodes c : List Nat) (d : Bool) (h : check g nodes
   refine ⟨?_, hc.1, hc.2⟩
   obtain ⟨_, hd, _, hh, _⟩ := hc
   intro e; simp [e] at hh
+
+/-- Stronger soundness: a reported cycle is a simple cycle — no target is listed twice. -/
+theorem C06_reported_simple (g : Graph) (nodes c : List Nat) (d : Bool) (h : check g nodes = .cyc c d) : c.Nodup :=
+  check_simple cfg_ok g nodes c d h
 
 /-- Every reported target is one of the graph's targets. -/
 theorem C06_reported_listed (g : Graph) (nodes c : List Nat) (d : Bool) (hwf : WF g nodes)
